@@ -236,7 +236,11 @@ class LCDDocFilter(DocumentFilter):
           region.get_begin() or 0,
           region.get_end(),
           writing_mode,
-          new_display_align
+          new_display_align,
+          # styles that are retained on regions and inherited by the content that is associated with them
+          region.get_style(StyleProperties.TextAlign),
+          region.get_style(StyleProperties.Color),
+          region.get_style(StyleProperties.BackgroundColor)
         )
 
       retained_region = retained_regions.get(fingerprint)
